@@ -16,6 +16,7 @@ import (
 	"sort"
 	"strings"
 	"sync"
+	"time"
 
 	"github.com/IrineSistiana/mosdns/v5/coremain"
 	"github.com/IrineSistiana/mosdns/v5/pkg/pool"
@@ -534,7 +535,115 @@ func runC03(r *Run) {
 	for i := 0; i < m; i++ {
 		runChain03(r, i, false)
 	}
-	r.Finish("(1) queries: IDs, names incl. mixed case / root / long, types and classes, flags, with/without OPT of sizes {0..65535}, malformed stream (QR, 0 or 2 questions, answer/authority records, 2 additionals) x scripted plugin outcome (answer with 0..30 records of up to 250 bytes, rcode 0..15 and extended with OPT, none, error, error after a response) x arrival via UDP, TCP, DoH GET, DoH POST; (2) random chains of 1..4 of {cache, redirect, hosts, black_hole, arbitrary, reject, ttl, ecs, prefer_ipv4, fallback, forward_edns0opt} in front of the scripted upstream, each chain queried 1..3 times; non-trivial = valid query")
+	// ---------- (3) two overlapping client queries for one cached question (fresh or expired-but-kept entry): the first
+	// is held in a plugin behind the cache until the second has been answered; each reply must carry its own ID
+	for i, nov := 0, r.N(40, 600); i < nov; i++ {
+		overlap03(r, i)
+	}
+	r.Finish("(1) queries: IDs, names incl. mixed case / root / long, types and classes, flags, with/without OPT of sizes {0..65535}, malformed stream (QR, 0 or 2 questions, answer/authority records, 2 additionals) x scripted plugin outcome (answer with 0..30 records of up to 250 bytes, rcode 0..15 and extended with OPT, none, error, error after a response) x arrival via UDP, TCP, DoH GET, DoH POST; (2) random chains of 1..4 of {cache, redirect, hosts, black_hole, arbitrary, reject, ttl, ecs, prefer_ipv4, fallback, forward_edns0opt} in front of the scripted upstream, each chain queried 1..3 times; (3) two client queries with different IDs for one cached question (fresh entry / expired entry kept by lazy cache), the first held behind the cache until the second was answered; non-trivial = valid query")
+}
+
+// overlap03: EntryHandler -> [cache, park] with an injected cache entry; query A (id a) is parked behind the cache with
+// its response already set, query B (id b) for the same question runs to completion, then A is released.
+func overlap03(r *Run, i int) {
+	lazy := r.Rng.Intn(2) == 0
+	stale := lazy && r.Rng.Intn(3) != 0
+	lazyTTL := 0
+	if lazy {
+		lazyTTL = 3600
+	}
+	c := cache.NewCache(&cache.Args{Size: 1024, LazyCacheTTL: lazyTTL}, cache.Opts{})
+	defer c.Close()
+	name := fmt.Sprintf("ov%d.example.", r.Rng.Intn(1000))
+	qtype := []uint16{dns.TypeA, dns.TypeAAAA, dns.TypeTXT}[r.Rng.Intn(3)]
+	mkq := func(id uint16) *dns.Msg {
+		q := new(dns.Msg)
+		q.SetQuestion(name, qtype)
+		q.Id = id
+		return q
+	}
+	stored := new(dns.Msg)
+	stored.SetReply(mkq(0x7777))
+	for k, n := 0, 1+r.Rng.Intn(3); k < n; k++ {
+		stored.Answer = append(stored.Answer, &dns.TXT{Hdr: dns.RR_Header{Name: name, Rrtype: dns.TypeTXT, Class: dns.ClassINET, Ttl: 300}, Txt: []string{fmt.Sprint("v", k)}})
+	}
+	now := time.Now()
+	key := cache.VerifGetMsgKey(query_context.NewContext(mkq(1)).Q())
+	if stale {
+		c.VerifInject(key, stored, now.Add(-2*time.Minute), now.Add(-time.Minute), now.Add(time.Hour))
+	} else {
+		c.VerifInject(key, stored, now.Add(-2*time.Second), now.Add(4*time.Minute), now.Add(4*time.Minute))
+	}
+	ida := uint16(r.Rng.Intn(65536))
+	idb := ida + 1 + uint16(r.Rng.Intn(65534))
+	parked, release := make(chan struct{}), make(chan struct{})
+	var once sync.Once
+	plugins := map[string]any{}
+	m := coremain.NewTestMosdnsWithPlugins(plugins)
+	plugins["cache"] = c
+	plugins["park"] = sequence.ExecutableFunc(func(ctx context.Context, qCtx *query_context.Context) error {
+		if qCtx.R() != nil && qCtx.Q().Id == ida {
+			once.Do(func() { close(parked) })
+			select {
+			case <-release:
+			case <-ctx.Done():
+			}
+		}
+		return nil
+	})
+	sq, err := sequence.NewSequence(sequence.NewBQ(m, m.Logger()), []sequence.RuleArgs{{Exec: "$cache"}, {Exec: "$park"}})
+	if err != nil {
+		r.Note("overlap chain build failed: " + err.Error())
+		return
+	}
+	h := server_handler.NewEntryHandler(server_handler.EntryHandlerOpts{Entry: sq})
+	vias := []string{"udp", "tcp", "doh-post"}
+	viaA, viaB := vias[r.Rng.Intn(3)], vias[r.Rng.Intn(3)]
+	type res struct {
+		p   []byte
+		got bool
+	}
+	ra := make(chan res, 1)
+	go func() {
+		p, got := deliver03(h, viaA, mkq(ida))
+		ra <- res{p, got}
+	}()
+	select {
+	case <-parked:
+	case <-time.After(2 * time.Second):
+	}
+	pb, gotB := deliver03(h, viaB, mkq(idb))
+	close(release)
+	a := <-ra
+	kind := map[bool]string{true: "expired entry kept by lazy cache", false: "fresh entry"}[stale]
+	for _, x := range []struct {
+		who string
+		id  uint16
+		p   []byte
+		got bool
+		via string
+	}{{"first (held behind the cache while the second was answered)", ida, a.p, a.got, viaA}, {"second", idb, pb, gotB, viaB}} {
+		desc := map[string]any{"chain": "cache(lazy=" + fmt.Sprint(lazy) + ") -> plugin that holds the first query", "cached": kind, "question": fmt.Sprintf("%s type %d", name, qtype),
+			"first_query_id": ida, "second_query_id": idb, "which": x.who, "arrived_via": x.via}
+		if !x.got {
+			r.Fail("a valid query got no reply", desc)
+			continue
+		}
+		rm := new(dns.Msg)
+		if err := rm.Unpack(x.p); err != nil {
+			r.Fail("the reply does not unpack", desc)
+			continue
+		}
+		desc["reply_id"] = rm.Id
+		if rm.Id != x.id {
+			r.Fail("the reply does not carry the query's ID (two overlapping queries for one cached question)", desc)
+		}
+		if len(rm.Question) != 1 || rm.Question[0].Name != name || rm.Question[0].Qtype != qtype || rm.Question[0].Qclass != dns.ClassINET || !rm.Response || !rm.RecursionAvailable {
+			r.Fail("the reply does not carry the query's question unchanged with QR and RA set", desc)
+		}
+	}
+	r.Eval(fmt.Sprintf("overlap/%d/%v/%v", i, lazy, stale), true)
+	r.Count("overlap:" + kind)
 }
 
 // ---- real plugin chains
